@@ -295,6 +295,11 @@ func runCheck(prop, tier, repo string, verbose bool, only string, timeout int) i
 			notes["contract of "+ct.Key+" is trusted (body not verified)"] = true
 			continue
 		}
+		if ct.TypeFact {
+			obls = append(obls, typeFactObligations(prog, ct)...)
+			funcs = append(funcs, k)
+			continue
+		}
 		fi := prog.Funcs[k]
 		if fi == nil {
 			f := false
@@ -303,6 +308,9 @@ func runCheck(prop, tier, repo string, verbose bool, only string, timeout int) i
 			continue
 		}
 		funcs = append(funcs, k)
+		for _, u := range ct.Unreach {
+			obls = append(obls, unreachableObligation(prog, fi, ct, u))
+		}
 		modes := ct.Modes
 		if len(modes) == 0 {
 			hasAPI := false
